@@ -1,15 +1,153 @@
 /-
   C09 — Simplification keeps a vertex subsequence within the tolerance.
 
-  Property theorems only. Model: GeoModel/Simplify.lean. Helper lemmas: GeoProofs/Lemmas/C09*.lean.
+  Property theorems only. Model: GeoModel/Simplify.lean. Helper lemmas (the `Within` relation,
+  the farthest-vertex fold, the inductions over `computeRdp`, the linked-list invariants of
+  Visvalingam-Whyatt): GeoProofs/Lemmas/C09Rdp.lean, GeoProofs/Lemmas/C09Vw.lean.
+
+  All theorems hold for every `INITIAL_MIN` (`mn`), every coordinate list (repeated, collinear,
+  back-tracking vertices, closed rings, 0-3 vertices) and every tolerance.
 -/
 import GeoModel.Simplify
+import GeoProofs.Lemmas.C09Rdp
+import Mathlib.Tactic.NormNum
 
 namespace Geo.Proofs.C09
 open Geo Geo.Simp
 
-/-- [T] `simplify(ε)` with `ε ≤ 0` is the identity (any `INITIAL_MIN`). -/
-theorem rdp_eps_nonpos (mn : Nat) (cs : List Pt) (eps : Rat) (h : eps ≤ 0) : rdp mn cs eps = cs := by
-  simp [rdp, h]
+/-! ### Ramer-Douglas-Peucker -/
+
+/-- the kept (coordinate, index) pairs of `compute_rdp` started as `rdp` / `calculate_rdp_indices`
+start it -/
+private def kept (mn : Nat) (cs : List Pt) (eps : Rat) : List RI :=
+  (computeRdp mn (eps * eps) cs.zipIdx.length cs.zipIdx cs.zipIdx.length).1
+
+private theorem kept_within (mn : Nat) (cs : List Pt) (eps : Rat) :
+    Within (okRI (eps * eps)) cs.zipIdx (kept mn cs eps) :=
+  computeRdp_within mn (eps * eps) _ _ _
+
+private theorem zipIdx_fst (cs : List Pt) : cs.zipIdx.map (·.1) = cs := List.zipIdx_map_fst 0 cs
+
+/-- [T] `simplify(ε)` with `ε ≤ 0` is the identity (any `INITIAL_MIN`), and `simplify_idx` then
+lists every position. -/
+theorem rdp_eps_nonpos (mn : Nat) (cs : List Pt) (eps : Rat) (h : eps ≤ 0) :
+    rdp mn cs eps = cs ∧ rdpIdx mn cs eps = List.range cs.length := by
+  constructor
+  · simp [rdp, h]
+  · simp [rdpIdx, h, List.zipIdx_map_snd, List.range_eq_range']
+
+/-- [T] every dropped vertex lies within `ε` of the retained segment that replaces it: the
+output is read off the input by keeping the first and last vertex and dropping runs `mid`
+between consecutive kept vertices `p`, `q` with `dist²(r, segment p q) ≤ ε²` for every dropped
+`r` (`Within`, GeoProofs/Lemmas/C09Rdp.lean). For `ε ≤ 0` nothing is dropped. -/
+theorem rdp_error_bound (mn : Nat) (cs : List Pt) (eps : Rat) :
+    Within (fun r p q => segDist2 r p q ≤ eps * eps) cs (rdp mn cs eps) := by
+  unfold rdp
+  split
+  · exact within_refl cs
+  · have h := within_map (ok' := fun r p q => segDist2 r p q ≤ eps * eps) (fun x : RI => x.1)
+      (fun r p q h => h) (kept_within mn cs eps)
+    rw [zipIdx_fst] at h
+    exact h
+
+/-- [T] the same bound on the (coordinate, position) pairs: it names the positions, so it is
+unambiguous for repeated vertices. -/
+theorem rdp_error_bound_idx (mn : Nat) (cs : List Pt) (eps : Rat) :
+    Within (okRI (eps * eps)) cs.zipIdx
+      (computeRdp mn (eps * eps) cs.zipIdx.length cs.zipIdx cs.zipIdx.length).1 :=
+  kept_within mn cs eps
+
+/-- [T] the output is a subsequence of the input vertices. -/
+theorem rdp_sublist (mn : Nat) (cs : List Pt) (eps : Rat) : (rdp mn cs eps).Sublist cs :=
+  within_sublist (rdp_error_bound mn cs eps)
+
+/-- [T] the first and the last vertex are kept (so a closed ring stays closed). -/
+theorem rdp_first_last (mn : Nat) (cs : List Pt) (eps : Rat) :
+    (rdp mn cs eps).head? = cs.head? ∧ (rdp mn cs eps).getLast? = cs.getLast? :=
+  ⟨within_head (rdp_error_bound mn cs eps), within_last (rdp_error_bound mn cs eps)⟩
+
+/-- [T] `simplify_idx` lists exactly the positions of the vertices `simplify` keeps: the
+index list is an increasing list of valid positions and looking them up gives the coordinate
+output. -/
+theorem rdp_idx_coords (mn : Nat) (cs : List Pt) (eps : Rat) :
+    (rdpIdx mn cs eps).Sublist (List.range cs.length) ∧
+    rdp mn cs eps = (rdpIdx mn cs eps).filterMap (fun i => cs[i]?) := by
+  have key : ∀ out : List RI, out.Sublist cs.zipIdx →
+      (out.map (·.2)).Sublist (List.range cs.length) ∧
+      out.map (·.1) = (out.map (·.2)).filterMap (fun i => cs[i]?) := by
+    intro out hs
+    constructor
+    · have := hs.map (·.2)
+      simpa [List.zipIdx_map_snd, List.range_eq_range'] using this
+    · have hmem : ∀ x ∈ out, cs[x.2]? = some x.1 := fun x hx =>
+        List.mem_zipIdx_iff_getElem?.1 (hs.subset hx)
+      clear hs
+      induction out with
+      | nil => rfl
+      | cons x t ih =>
+        simp only [List.map_cons, List.filterMap_cons, hmem x (List.mem_cons_self)]
+        rw [ih (fun y hy => hmem y (List.mem_cons_of_mem _ hy))]
+  unfold rdp rdpIdx
+  by_cases h : eps ≤ 0
+  · simp only [h, if_true]
+    have := key cs.zipIdx (List.Sublist.refl _)
+    rw [zipIdx_fst] at this
+    exact this
+  · simp only [h, if_false]
+    exact key _ (within_sublist (kept_within mn cs eps))
+
+/-- [T] the minimum-size guard: an input with at least `INITIAL_MIN` coordinates keeps at least
+`INITIAL_MIN` (rings: four); an input below `INITIAL_MIN` comes back unchanged. -/
+theorem rdp_min_size (mn : Nat) (cs : List Pt) (eps : Rat) :
+    (mn ≤ cs.length → mn ≤ (rdp mn cs eps).length) ∧ (cs.length < mn → rdp mn cs eps = cs) := by
+  unfold rdp
+  by_cases h : eps ≤ 0
+  · simp [h]
+  · simp only [h, if_false]
+    constructor
+    · intro hmn
+      have := computeRdp_len mn (eps * eps) cs.zipIdx.length cs.zipIdx cs.zipIdx.length (le_refl _)
+      have hl : cs.zipIdx.length = cs.length := List.length_zipIdx
+      rw [List.length_map]
+      omega
+    · intro hlt
+      rw [computeRdp_below_min mn (eps * eps) _ _ _ (by simpa using hlt)]
+      exact zipIdx_fst cs
+
+/-- [T] `simplified_len` never underflows and is, at the end, the length of the output
+(the `debug_assert_eq!` of `rdp`). -/
+theorem rdp_simplified_len (mn : Nat) (cs : List Pt) (eps : Rat) :
+    (computeRdp mn (eps * eps) cs.zipIdx.length cs.zipIdx cs.zipIdx.length).2 =
+      (computeRdp mn (eps * eps) cs.zipIdx.length cs.zipIdx cs.zipIdx.length).1.length := by
+  have := computeRdp_len mn (eps * eps) cs.zipIdx.length cs.zipIdx cs.zipIdx.length (le_refl _)
+  omega
+
+/-- [T] the fuel of the model's recursion is never exhausted: every fuel of at least the slice
+length gives the same result (termination of `compute_rdp`: `0 < farthest < len - 1`). -/
+theorem rdp_fuel_irrelevant (mn : Nat) (e2 : Rat) (f : Nat) (xs : List RI) (sl : Nat)
+    (h : xs.length ≤ f) : computeRdp mn e2 f xs sl = computeRdp mn e2 xs.length xs sl :=
+  computeRdp_fuel mn e2 f xs.length xs sl h (le_refl _)
+
+/-- [T] Polygon rings under `simplify`: a closed ring stays closed (so `Polygon::new` adds
+nothing) and never falls below four coordinates. -/
+theorem rdp_ring (r : List Pt) (eps : Rat) (hc : SM.isClosed r = true) :
+    SM.close (rdp 4 r eps) = rdp 4 r eps ∧ (4 ≤ r.length → 4 ≤ (rdp 4 r eps).length) := by
+  refine ⟨?_, (rdp_min_size 4 r eps).1⟩
+  have ⟨h1, h2⟩ := rdp_first_last 4 r eps
+  have : SM.isClosed (rdp 4 r eps) = true := by
+    simp only [SM.isClosed, decide_eq_true_eq] at hc ⊢
+    rw [h1, h2, hc]
+  simp [SM.close, this]
+
+/-- non-vacuity of the hypotheses above on a concrete ring -/
+example : SM.isClosed ([⟨0, 0⟩, ⟨4, 0⟩, ⟨4, 4⟩, ⟨0, 0⟩] : List Pt) = true := by decide
+
+/-- [T] witness of the defect repaired by the first `fix:` commit: the pinned `compute_rdp`
+(wrapping `usize`, release build) turns the one-element slice `[x]` into `[x, x]`. -/
+theorem rdp_single_pinned_witness (x : RI) :
+    (computeRdpPinnedSingle 2 x 1).1 = [x, x] ∧ (computeRdp 2 1 1 [x] 1).1 = [x] := by
+  constructor
+  · simp [computeRdpPinnedSingle]
+  · simp [computeRdp]
 
 end Geo.Proofs.C09
